@@ -10,6 +10,9 @@ Sub-checks
                  idkey   an item whose bucket key is id(<the dict spec of that level>) (the item is a placeholder
                          ['id', path] in the recipe; the number is spliced in once the spec objects exist) - F61
                  num-*   big ints (beyond 2**53), Fractions, Decimals routed to Avg leaves - F62
+                 vec     items of a sum()-friendly user class (0 + v is v itself, += works in place, v / n divides the components)
+                         routed to Avg leaves (bare, below key levels, inside a dict of aggregators); the reference runs on copies
+                         of the items, and the items handed to glom are compared with a snapshot after every evaluation - F103
   nested       rows {'k': int, 'vals': [ints]} x an enclosing Group whose chain holds an inner Group over row['vals']:
                Pipe(T['vals'], Group(<inner tree>), <leaf of the enclosing Group>) at top level, below a key level, under
                two constant keys that share one inner Group object, inside the leaf's own sub-spec, or as the key spec.
@@ -18,10 +21,16 @@ Sub-checks
                Reference: per row the inner Group is a complete Group of its own (refgroup over row['vals']); the leaf
                of the enclosing Group is the plain-Python aggregate of those per-row results ("nesting a Group spec
                object never carries data over"; "accumulation state lives ... for the duration of one evaluation").
+  pipelevel    ints x an enclosing Group whose spec is a Pipe that STARTS with a level of its own - a {key: ...} tree of 1-2
+               levels, the same inside a Limit(n) that is never used up, or a bare Limit(n) - and goes on with an accumulating
+               step: Count(), [snapshot], (len, Sum()), or a dict of both; at top level, below a key level, inside a top-level
+               Limit.  Reference: the hand-written loop - every item updates the buckets of the level, then the later step sees
+               the level's present value, once per item (F104-nested).
   first-under-key   First() below one key level (known finding F15 lives here, by construction)
 
 Oracle: refgroup() - an explicit bucketing loop with insertion-ordered dicts.
 """
+import copy
 import functools
 import operator
 from decimal import Decimal
@@ -44,9 +53,20 @@ RULE = ('items: 0-8 small ints (negative, zero, positive), in constructed classe
         'also per row / inside another Group. Non-trivial = >= 2 key levels or an aggregator leaf, with >= 2 buckets of >= 2 items. '
         'nested: 0-5 rows {k, vals: 0-5 small ints} x an inner Group (First / Limit(n[, tree]) / tree of 0-2 key levels) in the chain of an '
         'enclosing Group (top level / below one key level / shared under two constant keys / inside the leaf / as key spec) x the '
-        'leaves [T], Count, Sum, Max, Min, Avg, Flatten, Merge of the enclosing Group; non-trivial = >= 2 rows reach one accumulator.')
+        'leaves [T], Count, Sum, Max, Min, Avg, Flatten, Merge of the enclosing Group; non-trivial = >= 2 rows reach one accumulator. '
+        'group, class vec: 1-8 two-component vectors of a sum()-friendly class (4 variants) x trees over {T.xs[0] % 2, T.xs[1] % 3, callable, '
+        'SKIP-producing callable, Val} with the leaves Avg, {Val: Avg(), Val: Count(), Val: [T]}, Sum, Count, [T]. '
+        'pipelevel: 0-8 small ints x Pipe(<level>, <later step>) in an enclosing Group (top / below one key level / in a top-level Limit); '
+        'non-trivial = >= 2 items reach one accumulator of the later step.')
 ASSUMPTIONS = [
     'Avg reference: functools.reduce(operator.add, xs, 0) / len(xs) - exact for ints (true division rounds once), Fractions and Decimals',
+    'Avg over items of a user class: the same reference, computed on copies of the items (+ and / are the class\'s own); an aggregator reads its '
+    'items and never writes to them (C15 says so for Sum / Fold / Flatten; for the leaves of a Group it follows from "equal their Python references": '
+    'sum(xs) / len(xs) leaves xs alone, and from "re-using a Group spec object never carries data over": the second evaluation gets the same items)',
+    'pipelevel: a {key: ...} level that is a step of a Pipe yields, per item, the dictionary built so far (what the level returns at the end is the '
+    'value of its last item); the next step of the Pipe is a step of the enclosing Group and sees one value per item; a key spec answering SKIP keeps '
+    'the item out of that key spec\'s buckets only. A Limit as the first step is generated only with n >= the number of items it sees (a used-up '
+    'Limit answers STOP inside the Pipe: see the last assumption)',
     'an item that stands for id(<dict spec>) is known only after the spec is built: its value differs between processes, its position and the dict it names do not',
     'top-level aggregators on empty input, Limit below a key level and two key specs producing the same bucket key are outside the statement and not generated',
     'First/STOP-producing leaves below a key level are generated only in the first-under-key sub-check (known finding F15)',
@@ -77,6 +97,89 @@ def skip3(x):
     return SKIP if x == 3 else x
 
 
+class Vec(object):
+    """item class with the common "make sum() work" idiom: 0 + v is v itself; += works in place; v / n divides the components"""
+    def __init__(self, *xs):
+        self.xs = list(xs)
+
+    def _zero(self):
+        return not any(self.xs)
+
+    def __add__(self, other):
+        if not isinstance(other, Vec):
+            return NotImplemented
+        return type(self)(*[a + b for a, b in zip(self.xs, other.xs)])
+
+    def __radd__(self, other):
+        if not isinstance(other, Vec) and other == 0:
+            return self
+        return NotImplemented
+
+    def __iadd__(self, other):
+        if not isinstance(other, Vec):
+            return NotImplemented
+        self.xs[:] = [a + b for a, b in zip(self.xs, other.xs)]
+        return self
+
+    def __truediv__(self, n):
+        if isinstance(n, Vec):
+            return NotImplemented
+        return type(self)(*[a / n for a in self.xs])
+
+    def __eq__(self, other):
+        # (components by repr: 3 is not 3.0, 0.0 is not -0.0)
+        return type(other) is type(self) and [repr(a) for a in self.xs] == [repr(b) for b in other.xs]
+
+    def __ne__(self, other):
+        return not self == other
+
+    __hash__ = None
+
+    def __repr__(self):
+        return '%s%r' % (type(self).__name__, tuple(self.xs))
+
+
+class VecR(Vec):
+    """as Vec, += rebinds the component list instead of filling it"""
+    def __iadd__(self, other):
+        if not isinstance(other, Vec):
+            return NotImplemented
+        self.xs = [a + b for a, b in zip(self.xs, other.xs)]
+        return self
+
+
+class VecA(Vec):
+    """as Vec, + hands back an operand where the other one is the zero vector"""
+    def __add__(self, other):
+        if not isinstance(other, Vec):
+            return NotImplemented
+        if other._zero():
+            return self
+        if self._zero():
+            return other
+        return Vec.__add__(self, other)
+
+
+class VecC(Vec):
+    """the careful variant: 0 + v is a copy of v (its += is in place all the same)"""
+    def __radd__(self, other):
+        if not isinstance(other, Vec) and other == 0:
+            return type(self)(*self.xs)
+        return NotImplemented
+
+
+VECS = {'radd0': Vec, 'radd0-rebind': VecR, 'add-operand': VecA, 'radd-copy': VecC}
+RADD_SELF = ('radd0', 'radd0-rebind', 'add-operand')
+
+
+def vbig(v):
+    return 'big' if v.xs[0] > 4 else 'small'
+
+
+def vskip(v):
+    return SKIP if v.xs[1] % 2 else v.xs[1] % 4
+
+
 # third field: the range of keys (None: any value at all, so no second key spec can sit at the same level)
 KEYS = {
     'ident': (lambda: T, lambda x: x, None),
@@ -85,10 +188,18 @@ KEYS = {
     'big': (lambda: big, big, {'big', 'small'}),
     'skipodd': (lambda: skipodd, skipodd, {0, 2}),
     'const': (lambda: Val('all'), lambda x: 'all', {'all'}),
+    # over Vec items
+    'vx2': (lambda: T.xs[0] % 2, lambda v: v.xs[0] % 2, {0, 1}),
+    'vy3': (lambda: T.xs[1] % 3, lambda v: v.xs[1] % 3, {0, 1, 2}),
+    'vbig': (lambda: vbig, vbig, {'big', 'small'}),
+    'vskip': (lambda: vskip, vskip, {0, 2}),
 }
+INTKEYS = ['big', 'const', 'ident', 'mod2', 'mod3', 'skipodd']
+VECKEYS = ['const', 'vbig', 'vskip', 'vx2', 'vy3']
 LEAVES = ['list', 'listx2', 'max', 'min', 'avg', 'sum', 'count', 'aggdict', 'listskip', 'flatten', 'merge']
 
 
+VECLEAVES = ['avg', 'avg', 'vaggdict', 'vaggdict', 'sum', 'count', 'list']
 NUMLEAVES = ['avg', 'avg', 'avg', 'sum', 'max', 'min', 'count', 'list', 'aggdict']
 SMALL = list(range(-4, 10))
 BIGINTS = [2 ** 53, 2 ** 53 + 1, 2 ** 53 + 3, 2 ** 54 + 2, 2 ** 60 + 1, 2 ** 63 - 1, 2 ** 64 + 1, 10 ** 17 + 1, 3 ** 40, -(2 ** 53) - 1,
@@ -96,16 +207,15 @@ BIGINTS = [2 ** 53, 2 ** 53 + 1, 2 ** 53 + 3, 2 ** 54 + 2, 2 ** 60 + 1, 2 ** 63 
 DECIMALS = ['0.1', '0.2', '1.5', '2.50', '-3.25', '1E+2', '7', '0.333', '-0.5', '12.125']
 
 
-def gen_tree(draw, levels, top=True, leaves=LEAVES):
+def gen_tree(draw, levels, top=True, leaves=LEAVES, names=INTKEYS):
     if levels == 0:
         return ['leaf', draw(st.sampled_from(leaves + (['first'] if top and leaves is LEAVES else [])))]
-    names = sorted(KEYS)
     k1 = draw(st.sampled_from(names))
-    entries = [[k1, gen_tree(draw, levels - 1, False, leaves)]]
+    entries = [[k1, gen_tree(draw, levels - 1, False, leaves, names)]]
     if draw(st.integers(0, 4)) == 0:
         others = [k for k in names if KEYS[k][2] is not None and KEYS[k1][2] is not None and not (KEYS[k][2] & KEYS[k1][2])]
         if others:
-            entries.append([draw(st.sampled_from(others)), gen_tree(draw, levels - 1, False, leaves)])
+            entries.append([draw(st.sampled_from(others)), gen_tree(draw, levels - 1, False, leaves, names)])
     return ['dict', entries]
 
 
@@ -151,10 +261,28 @@ def gen_numeric(draw, kind):
     return tree, items
 
 
+def gen_vecitems(draw, kind, sizes):
+    comp = st.sampled_from(range(-4, 10))
+    return [['V', kind, draw(comp), draw(comp)] for _ in range(draw(st.sampled_from(sizes)))]
+
+
+def gen_vec(draw):
+    """vectors of one sum()-friendly class as the inputs of Avg (first leaf of the tree is Avg - bare or in a dict of aggregators)"""
+    tree = gen_tree(draw, draw(st.sampled_from([0, 0, 0, 1, 1, 1, 2, 2, 3])), False, VECLEAVES, VECKEYS)
+    node = tree
+    while node[0] == 'dict':
+        node = node[1][0][1]
+    node[1] = draw(st.sampled_from(['avg', 'avg', 'vaggdict']))
+    kind = draw(st.sampled_from(sorted(RADD_SELF) * 2 + ['radd-copy']))
+    return tree, gen_vecitems(draw, kind, [1, 2, 3, 3, 4, 4, 5, 6, 7, 8]), kind
+
+
 def gen(draw):
-    cls = draw(st.sampled_from(['plain'] * 7 + ['idkey'] * 2 + ['bigint', 'fraction', 'decimal']))
+    cls = draw(st.sampled_from(['plain'] * 5 + ['vec'] * 2 + ['idkey'] * 2 + ['bigint', 'fraction', 'decimal']))
     if cls == 'idkey':
         tree, items = gen_idkey(draw)
+    elif cls == 'vec':
+        tree, items, kind = gen_vec(draw)
     elif cls != 'plain':
         tree, items = gen_numeric(draw, cls)
     else:
@@ -169,6 +297,9 @@ def gen(draw):
     nest = draw(st.sampled_from(['plain', 'plain', 'rows', 'sum-of-groups'] + (['sum-of-groups'] * 2 if summable else [])))
     if nest == 'sum-of-groups' and not summable:
         nest = 'plain'
+    if cls == 'vec':
+        rows = [gen_vecitems(draw, kind, [1, 2, 3, 4]) for _ in range(draw(st.integers(0, 3)))]
+        return {'tree': tree, 'items': items, 'nest': nest, 'rows': rows, 'cls': 'vec'}
     rows = [[draw(st.integers(-4, 9)) for _ in range(draw(st.integers(1, 4)))] for _ in range(draw(st.integers(0, 3)))]
     return {'tree': tree, 'items': items, 'nest': nest, 'rows': rows}
 
@@ -202,6 +333,8 @@ def decode_items(items, tree, built):
                 v = Fraction(v[1], v[2])
             elif v[0] == 'D':
                 v = Decimal(v[1])
+            elif v[0] == 'V':
+                v = VECS[v[1]](*v[2:])
             elif v[0] == 'id':
                 obj = dict_at(tree, built, v[1])[1]
                 v = id(obj) if obj is not None else 0
@@ -256,6 +389,7 @@ def build(r):
         return {'list': lambda: [T], 'listx2': lambda: [T * 2], 'first': First, 'max': Max, 'min': Min, 'avg': Avg,
                 'sum': Sum, 'count': Count, 'flatten': lambda: Flatten(dup), 'merge': lambda: Merge(asdict),
                 'aggdict': lambda: {Val('mx'): Max(), Val('n'): Count(), Val('all'): [T]},
+                'vaggdict': lambda: {Val('avg'): Avg(), Val('n'): Count(), Val('all'): [T]},
                 'listskip': lambda: [skip3]}[k]()
     if r[0] == 'limit':
         return Limit(r[1]) if r[2] is None else Limit(r[1], build(r[2]))
@@ -295,6 +429,8 @@ def refleaf(kind, items, zero=0):
         return out
     if kind == 'aggdict':
         return {'mx': max(items), 'n': len(items), 'all': list(items)}
+    if kind == 'vaggdict':
+        return {'avg': functools.reduce(operator.add, items, zero) / len(items), 'n': len(items), 'all': list(items)}
     if kind == 'listskip':
         return [x for x in items if x != 3]
     raise ValueError(kind)
@@ -323,6 +459,33 @@ def refgroup(r, items, zero=0):
         sub, xs = buckets[key]
         out[key] = refgroup(sub, xs, zero)
     return out
+
+
+def leaf_inputs(r, items):
+    """[(leaf kind, the items routed to that leaf)] for every accumulator of the tree"""
+    if r[0] == 'leaf':
+        return [(r[1], list(items))]
+    if r[0] == 'limit':
+        return leaf_inputs(r[2] if r[2] is not None else ['leaf', 'list'], items[:r[1]])
+    out = []
+    for k, sub in r[1]:
+        order, buckets = [], {}
+        for x in items:
+            key = KEYS[k][1](x)
+            if key is SKIP:
+                continue
+            if key not in buckets:
+                buckets[key] = []
+                order.append(key)
+            buckets[key].append(x)
+        for key in order:
+            out += leaf_inputs(sub, buckets[key])
+    return out
+
+
+def snap(values):
+    """class and contents of every item (the statement's leaves read their items; none of them writes to one)"""
+    return [(type(x).__name__, repr(x)) for x in values]
 
 
 def needs_items(r):
@@ -384,12 +547,16 @@ def check(recipe, ctx):
     tree, ritems = recipe['tree'], list(recipe['items'])
     if tree[0] == 'limit' and tree[1] == 0 and needs_items(tree):
         tree = ['limit', 1, tree[2]]       # an aggregator over no items at all is outside the statement
+    vec = recipe.get('cls') == 'vec'
+    veckind = ritems[0][1] if vec and ritems else 'radd0'
     if not ritems and needs_items(tree):
-        ritems = [4]
+        ritems = [['V', 'radd0', 1, 2]] if vec else [4]
     built = build(tree)
     spec = Group(built)
     items = decode_items(ritems, tree, built)      # id(<dict spec>) items exist only now
-    exp = refgroup(tree, items)
+    ref_items = decode_items(ritems, tree, built)  # the reference works on copies of its own
+    before = snap(items)
+    exp = refgroup(tree, ref_items)
     nbuckets = len(exp) if isinstance(exp, dict) else 0
     ctx.label('levels-%d' % levels(tree), 'nest-' + recipe['nest'], 'leaf-agg' if has_agg(tree) else 'leaf-list')
     # the constructed classes; the mismatch kind carries the class so that each is shrunk and reported on its own
@@ -404,20 +571,34 @@ def check(recipe, ctx):
         for k in kinds:
             ctx.label('avg-num-' + k)
         try:
-            from_float = same_with_order(refgroup(tree, items, 0.0), exp)
+            from_float = same_with_order(refgroup(tree, ref_items, 0.0), exp)
         except TypeError:
             from_float = False
         if not from_float:
             ctx.label('avg-needs-exact-sum')       # a sum started from the float 0.0 gives another answer (or none)
             suffix = suffix or '-avg-' + ('+'.join(kinds) or 'exact')
+    if vec:
+        suffix = '-vec'
+        kind = veckind
+        avgs = [xs for leaf, xs in leaf_inputs(tree, ref_items) if leaf in ('avg', 'vaggdict')]
+        if avgs:
+            ctx.label('avg-vec', 'avg-vec-' + kind)
+        # the sum of such a leaf has a second term that changes it: 0 + first is the first item itself, the next + decides
+        if kind in RADD_SELF and any(len(xs) >= 2 and not all(x._zero() for x in xs[1:]) for xs in avgs):
+            ctx.label('avg-vec-radd-self/items>=2')
     ctx.nontrivial((levels(tree) >= 2 or has_agg(tree)) and nbuckets >= 2 and len(items) >= 4)
     where = 'spec=%r items=%r' % (spec, items)
+    if snap(ref_items) != before:
+        raise HarnessBug('the reference changed its items: %s' % where)
     results = []
     for rep in range(2):
         try:
             got = glom.glom(list(items), spec)
         except Exception as e:
             raise Mismatch('unexpected-error' + suffix, '%s (evaluation #%d): %s: %r' % (where, rep + 1, type(e).__name__, e))
+        if snap(items) != before:
+            raise Mismatch('input-modified' + suffix, '%s (evaluation #%d): the items are %r afterwards (result %r, expected %r)'
+                           % (where, rep + 1, items, got, exp))
         if not same_with_order(got, exp):
             raise Mismatch(('wrong-result' if rep == 0 else 'carry-over') + suffix,
                            '%s (evaluation #%d of the same spec object): expected %r, got %r' % (where, rep + 1, exp, got))
@@ -425,23 +606,30 @@ def check(recipe, ctx):
     if mutable_ids(results[0]) & mutable_ids(results[1]):
         raise Mismatch('results-share-state', '%s: two evaluations share a mutable object' % where)
     # evaluation on a different input in between must not leak either
-    other = [9, 9, 8]
+    other = [VECS[veckind](9, 9), VECS[veckind](9, 1), VECS[veckind](8, 0)] if vec else [9, 9, 8]
     try:
         glom.glom(other, spec)
         again = glom.glom(list(items), spec)
     except Exception as e:
-        raise Mismatch('unexpected-error', '%s: %r' % (where, e))
+        raise Mismatch('unexpected-error' + ('-vec' if vec else ''), '%s: %r' % (where, e))
+    if snap(items) != before:
+        raise Mismatch('input-modified' + suffix, '%s (evaluation #3): the items are %r afterwards' % (where, items))
     if not same_with_order(again, exp):
-        raise Mismatch('carry-over', '%s: after evaluating other data, expected %r, got %r' % (where, exp, again))
+        raise Mismatch('carry-over' + ('-vec' if vec else ''), '%s: after evaluating other data, expected %r, got %r' % (where, exp, again))
     if recipe['nest'] == 'rows':
-        rows = [r for r in recipe['rows']]
-        exp_rows = [refgroup(tree, r) for r in rows]
+        rows = [decode_items(r, tree, built) for r in recipe['rows']]
+        rows_before = [snap(r) for r in rows]
+        exp_rows = [refgroup(tree, decode_items(r, tree, built)) for r in recipe['rows']]
         try:
             got_rows = glom.glom([list(r) for r in rows], [spec])
         except Exception as e:
-            raise Mismatch('unexpected-error', '%s rows=%r: %r' % (where, rows, e))
+            raise Mismatch('unexpected-error' + ('-vec' if vec else ''), '%s rows=%r: %r' % (where, rows, e))
+        if [snap(r) for r in rows] != rows_before:
+            raise Mismatch('input-modified' + suffix, '%s applied per row to %r: the rows are %r afterwards'
+                           % (where, recipe['rows'], rows))
         if not same_with_order(got_rows, exp_rows):
-            raise Mismatch('carry-over-rows', '%s applied per row to %r: expected %r, got %r' % (where, rows, exp_rows, got_rows))
+            raise Mismatch('carry-over-rows' + ('-vec' if vec else ''), '%s applied per row to %r: expected %r, got %r'
+                           % (where, rows, exp_rows, got_rows))
     if recipe['nest'] == 'sum-of-groups' and recipe['rows']:
         rows = recipe['rows']
         outer = Group(Sum(spec))
@@ -670,6 +858,117 @@ def check_nested(recipe, ctx):
 
 
 # ---------------------------------------------------------------------------
+# a Pipe in a Group that starts with a level of its own and goes on with an accumulating step
+
+def snapshot(v):
+    return copy.deepcopy(v)
+
+
+# the step(s) after the level: name -> build
+LATER = {
+    'count': lambda: [Count()],
+    'snaps': lambda: [[snapshot]],
+    'sumlen': lambda: [len, Sum()],
+    'both': lambda: [{Val('n'): Count(), Val('snaps'): [snapshot]}],
+}
+PLEAVES = [k for k in LEAVES if k != 'listskip'] + ['list', 'list', 'sum']
+
+
+def gen_pipelevel(draw):
+    S = st.sampled_from
+    place = draw(S(['top', 'top', 'bucket']))
+    # (an aggregating Pipe over no items at all is outside the statement)
+    items = [draw(S(SMALL)) for _ in range(draw(S([0, 2, 3, 4, 5, 6, 7, 8] if place == 'bucket' else [1, 1, 2, 3, 3, 4, 4, 5, 6, 8])))]
+    first = draw(S(['dict'] * 6 + ['limit-dict'] * 2 + ['limit']))
+    if first == 'limit':
+        level = ['limit', len(items) + draw(S([0, 1, 3])), None]
+    else:
+        level = gen_tree(draw, draw(S([1, 1, 1, 2])), False, PLEAVES)
+        if first == 'limit-dict':
+            level = ['limit', len(items) + draw(S([0, 1, 3])), level]
+    return {'level': level, 'later': draw(S(['count', 'count', 'snaps', 'snaps', 'sumlen', 'both'])), 'mid': draw(S([False, False, True])),
+            'place': place, 'okey': draw(S(INTKEYS + ['const', 'mod2', 'big'])), 'olimit': draw(S([None] * 5 + [1, 2, 3, 5])),
+            'items': items}
+
+
+def build_pipelevel(recipe):
+    chain = Pipe(*([build(recipe['level'])] + ([keep] if recipe['mid'] else []) + LATER[recipe['later']]()))
+    spec = chain if recipe['place'] == 'top' else {KEYS[recipe['okey']][0](): chain}
+    return spec if recipe['olimit'] is None else Limit(recipe['olimit'], spec)
+
+
+def pipelevel_groups(recipe, seen):
+    """the items that reach one and the same Pipe (one accumulator of the later step), per accumulator, keyed as in the result"""
+    if recipe['place'] == 'top':
+        return {None: list(seen)}
+    groups = {}
+    for x in seen:
+        key = KEYS[recipe['okey']][1](x)
+        if key is not SKIP:
+            groups.setdefault(key, []).append(x)
+    return groups
+
+
+def ref_pipelevel(recipe, seen):
+    """the hand-written loop: every item first updates the buckets of the level, then the later step sees the level's present value"""
+    level, later = recipe['level'], recipe['later']
+
+    def loop(xs):
+        n, snaps, lens = 0, [], 0
+        for i in range(len(xs)):
+            state = refgroup(level, xs[:i + 1])       # the buckets after item i (a bucketing loop is the same on every prefix)
+            n += 1
+            snaps.append(state)
+            lens += len(state)
+        return {'count': n, 'snaps': snaps, 'sumlen': lens, 'both': {'n': n, 'snaps': snaps}}[later]
+    groups = pipelevel_groups(recipe, seen)
+    if recipe['place'] == 'top':
+        return loop(groups[None])
+    return dict((key, loop(xs)) for key, xs in groups.items())
+
+
+def check_pipelevel(recipe, ctx):
+    level, later, place, olimit = recipe['level'], recipe['later'], recipe['place'], recipe['olimit']
+    items = list(recipe['items'])
+    if place == 'top' and not items:
+        raise HarnessBug('pipelevel: recipe outside the generated domain (an aggregating Pipe over no items at all): %r' % (recipe,))
+    seen = items if olimit is None else items[:olimit]
+    groups = pipelevel_groups(recipe, seen)
+    if level[0] == 'limit' and level[1] < max([len(xs) for xs in groups.values()] + [0]):
+        raise HarnessBug('pipelevel: recipe outside the generated domain (the Limit that starts the Pipe is used up): %r' % (recipe,))
+    if later not in LATER or has_leaf(level, 'first') or (level[0] != 'limit' and level[0] != 'dict'):
+        raise HarnessBug('pipelevel: recipe outside the generated domain: %r' % (recipe,))
+    spec = Group(build_pipelevel(recipe))
+    exp = ref_pipelevel(recipe, seen)
+    top = level[2] if level[0] == 'limit' else level
+    ctx.label('place-' + place, 'later-' + later, 'first-' + ('limit' if level[0] == 'limit' else 'dict'))
+    many = [xs for xs in groups.values() if len(xs) >= 2]
+    if many:
+        ctx.label('level-then-accumulating-step/items>=2')
+    # every key spec of the level's top dict sends the items of one accumulator of the later step different ways
+    if top is not None and any(all(len(set(repr(KEYS[k][1](x)) for x in xs)) >= 2 for k, _ in top[1]) for xs in many):
+        ctx.label('level-then-accumulating-step/buckets>=2')
+        ctx.label('level-then-%s/buckets>=2' % ('count' if later in ('count', 'sumlen') else 'snaps'))
+        if place == 'bucket':
+            ctx.label('level-then-accumulating-step-below-key/buckets>=2')
+    ctx.nontrivial(bool(many))
+    where = 'glom(%r, %r)' % (items, spec)
+    results = []
+    for rep in range(2):
+        try:
+            got = glom.glom(list(items), spec)
+        except Exception as e:
+            raise Mismatch('pipelevel-unexpected-error', '%s (evaluation #%d): %s: %r' % (where, rep + 1, type(e).__name__, e))
+        if not same_with_order(got, exp):
+            raise Mismatch('pipelevel-wrong-result' if rep == 0 else 'pipelevel-carry-over',
+                           '%s (evaluation #%d of the same spec object): expected %r, got %r' % (where, rep + 1, exp, got))
+        results.append(got)
+    if mutable_ids(results[0]) & mutable_ids(results[1]):
+        raise Mismatch('pipelevel-results-share-state', '%s: two evaluations share a mutable object' % where)
+    ctx.outcome([repr(spec)[:120], repr(exp)[:100]])
+
+
+# ---------------------------------------------------------------------------
 # First below a key level (F15)
 
 def gen_first(draw):
@@ -716,10 +1015,15 @@ SUBS = [
     Sub('group', check, gen=gen, quick=5000, thorough=20000,
         floors={'levels-2': 0.1, 'levels-3': 0.05, 'leaf-agg': 0.3, 'nest-rows': 0.1,
                 'idkey': 0.065, 'idkey-followed': 0.06, 'avg-num-bigint': 0.03, 'avg-num-Fraction': 0.03, 'avg-num-Decimal': 0.03,
-                'avg-needs-exact-sum': 0.06}),
+                'avg-needs-exact-sum': 0.06,
+                'avg-vec': 0.07, 'avg-vec-radd-self/items>=2': 0.045, 'avg-vec-radd-copy': 0.008}),
     Sub('nested', check_nested, gen=gen_nested, quick=1200, thorough=8000,
         floors={'stop-then-accumulating-step/rows>=2': 0.15, 'stop-by-first-then-accumulating-step/rows>=2': 0.06,
                 'stop-by-limit-then-accumulating-step/rows>=2': 0.08, 'stop-then-accumulating-step-below-key/rows>=2': 0.06,
                 'no-stop-then-accumulating-step/rows>=2': 0.1, 'pos-in-leaf': 0.1, 'form-share': 0.065, 'form-key': 0.012}),
+    Sub('pipelevel', check_pipelevel, gen=gen_pipelevel, quick=600, thorough=4000,
+        floors={'level-then-accumulating-step/items>=2': 0.4, 'level-then-accumulating-step/buckets>=2': 0.13,
+                'level-then-count/buckets>=2': 0.07, 'level-then-snaps/buckets>=2': 0.055,
+                'level-then-accumulating-step-below-key/buckets>=2': 0.03, 'first-limit': 0.12}),
     Sub('first-under-key', check_first, gen=gen_first, quick=600, thorough=2000),
 ]
